@@ -99,6 +99,30 @@ def h_field_names(env):
     env.check("camelCase-key-maps-back", same(casing.safe_snake_case(camel_key), f))
     env.check("snake_case-key-maps-back", same(casing.safe_snake_case(snake_key), f))
     env.check("proto-name-maps-back", same(casing.safe_snake_case(n), f))
+    if not env.sym:
+        _witness_end_to_end(env, str(n), str(f), str(camel_key), str(snake_key))
+
+
+def _witness_end_to_end(env, n, f, camel_key, snake_key):
+    """at the path witness: a real message class with this field; every key whose name mapping holds must be accepted by from_dict
+    (isolates what from_dict does with a key beyond safe_snake_case; keys inside a known name-mapping region are skipped)"""
+    import dataclasses
+
+    import betterproto
+    from betterproto import casing
+
+    if not f.isidentifier() or _kw.iskeyword(f) or hasattr(betterproto.Message, f) or f.startswith("_betterproto") or f in ("_serialized_on_wire", "_unknown_fields", "_group_current"):
+        return
+    cls = dataclasses.dataclass(eq=False, repr=False)(type("W", (betterproto.Message,), {"__annotations__": {f: int}, f: betterproto.int32_field(1), "__module__": __name__}))
+    m = cls(**{f: 5})
+    for key in (n, camel_key, snake_key):
+        if casing.safe_snake_case(key) != f:
+            continue
+        for back in (cls().from_dict({key: 5}), cls.from_dict({key: 5})):
+            env.check("witness:from_dict-accepts-a-key-that-maps-back", getattr(back, f) == 5 and bytes(back) == bytes(m), "%r -> field %r" % (key, f))
+    for c in (betterproto.Casing.CAMEL, betterproto.Casing.SNAKE):
+        d = m.to_dict(casing=c)
+        env.check("witness:to_dict-emits-the-computed-key", list(d) == [camel_key if c is betterproto.Casing.CAMEL else snake_key], "%r" % (d,))
 
 
 def h_method_class_names(env):
